@@ -45,6 +45,8 @@ Proof.
   - left. destruct (nth_error (exts s) j) as [e|] eqn:Hj; try discriminate.
     destruct (e_step c s j e) as [[s1 e']|] eqn:He; try discriminate. inversion H; subst; clear H.
     destruct e as [pc r]. unfold e_step in He. cbn [epc_ ops] in He. destruct pc.
+    12: { inversion He; subst. destruct (do_start_fields c s) as (F1&F2&F3&F4&F5&F6&F7&F8&F9&F10&F11&F12&F13).
+          unfold set_exts; cbn [ran canc]. auto. }
     all: try (destruct r as [|[t| | | |] r']; try discriminate).
     all: try (match type of He with context [sub_step ?c ?s ?t ?p] => destruct (sub_step c s t p) as [[s2 [p'|]]|] eqn:HS; try discriminate;
               inversion He; subst; destruct (sub_step_logs _ _ _ _ _ HS); proj; auto end).
